@@ -1931,8 +1931,10 @@ class Frame(object):
                     w = args[1] if len(args) > 1 else kwargs.get('minlen', Const(1))       # the modelled bound method held in a local
                     return Bytes([('INT', render(w), render(args[0]))])
                 return Sym('%s(%s)' % (callee.text, self._argtext(args, kwargs)))
-            if isinstance(callee, Sym) and callee.text != n and callee.text.startswith('{') and n not in self.fi.params:
-                # a local holding the result of a dispatch on a display ({k: f}.get(x, g) / {k: f}[x]): the call is a call of that value
+            if isinstance(callee, Sym) and callee.text != n and n not in self.fi.params and \
+                    (callee.text.startswith('{') or (re.match(r'^[\w.]+\(.*\)$', callee.text) and _balanced(callee.text))):
+                # a local holding the result of a dispatch on a display ({k: f}.get(x, g) / {k: f}[x]) or of a call that returns a
+                # callable (getattr(mod, name)): the call is a call of that value
                 record(callee.text)
                 return Sym('%s(%s)' % (callee.text, self._argtext(args, kwargs)))
             if n in ('bytearray', 'bytes'):
